@@ -36,6 +36,25 @@ let field_of_ccs (l : cc_res list) : string =
   if l = [] then "-" else
   String.concat "/" (List.map (fun c -> Printf.sprintf "%s:%s:%s" (zs c.cc_no) (zs c.cc_index) (field_of_ints c.cc_data)) l)
 
+(* commands of the mini runner, joined by '/': N:w:cyc:ia | T:ia | P:w:v | R:w:r | ct:no:ia | cn:no:ia | cw:no:ia |
+   F:f | pb:big:ia | cc:no:v | n:pc | nn:key | r *)
+let rcmd_of_field (f : string) : rcmd =
+  match String.split_on_char ':' f with
+  | ["N"; w; cyc; ia] -> ROnNote (which_of_field w, bool_of_field cyc, ints_of_field ia)
+  | ["T"; ia] -> RVOnTime (ints_of_field ia)
+  | ["P"; w; v] -> RPlain (which_of_field w, z v)
+  | ["R"; w; r] -> RRandom (which_of_field w, z r)
+  | ["ct"; no; ia] -> RCCOnTime (z no, ints_of_field ia)
+  | ["cn"; no; ia] -> RCCOnNote (z no, ints_of_field ia)
+  | ["cw"; no; ia] -> RCCOnNoteWave (z no, ints_of_field ia)
+  | ["F"; v] -> RFreq (z v)
+  | ["pb"; big; ia] -> RPBOnTime (z big, ints_of_field ia)
+  | ["cc"; no; v] -> RCC (z no, z v)
+  | ["n"; pc] -> RNote (z pc)
+  | ["nn"; key] -> RNoteN (z key)
+  | ["r"] -> RRest
+  | _ -> raise (Bad ("rcmd:" ^ f))
+
 let dispatch (fields : string list) : string =
   match fields with
   | ["f32ops"; a; b; c; d] ->
@@ -77,6 +96,10 @@ let dispatch (fields : string list) : string =
           | _ -> raise (Bad ("op:" ^ op))) k (split_on '/' ops) in
       Printf.sprintf "%s\t%s\t%s\t%s" (field_of_events k.tr_events) (field_of_ccs k.tr_cc_on_note)
         (field_of_ccs k.tr_cc_on_note_wave) (zs k.tr_timepos)
+  | ["run"; ch; timebase; cmds] ->
+      (* the events pushed on one track by a command sequence, from Track::new / Song::new *)
+      let s = exec_cmds (rstate_new (z ch) (z timebase)) (List.map rcmd_of_field (split_on '/' cmds)) in
+      Printf.sprintf "%s\t%s" (field_of_events s.rs_k.tr_events) (zs s.rs_k.tr_timepos)
   | ["rand"; seed; n] ->
       field_of_ints (rand_seq (z seed) (nat_of_int (int_of_string n)))
   | ["rand_value"; seed; v; width; n] ->
